@@ -11,6 +11,7 @@ pub mod c10;
 pub mod renderutil;
 pub mod c11;
 pub mod c13;
+pub mod c14;
 pub mod c15;
 pub mod c16;
 pub mod c17;
@@ -32,6 +33,7 @@ pub fn lookup(id: &str) -> Option<&'static dyn Prop> {
         "C10" => &c10::C10,
         "C11" => &c11::C11,
         "C13" => &c13::C13,
+        "C14" => &c14::C14,
         "C15" => &c15::C15,
         "C16" => &c16::C16,
         "C17" => &c17::C17,
